@@ -474,18 +474,21 @@ func loadKnown() []knownEntry {
 	return kf.Entries
 }
 
-func matchKnown(known []knownEntry, prop string, r *result) *knownEntry {
+// matchKnownV matches ONE violation of a run against the known findings.
+func matchKnownV(known []knownEntry, prop string, v map[string]any, tags []string) *knownEntry {
+	clause, _ := v["clause"].(string)
+	detail, _ := v["detail"].(string)
 	for i := range known {
 		k := &known[i]
-		if k.Status != "known" || k.Property != prop || k.Clause != r.clause() {
+		if k.Status != "known" || k.Property != prop || k.Clause != clause {
 			continue
 		}
-		if k.DetailHas != "" && !strings.Contains(r.detail(), k.DetailHas) {
+		if k.DetailHas != "" && !strings.Contains(detail, k.DetailHas) {
 			continue
 		}
 		if k.Precondition != "" {
 			ok := false
-			for _, t := range r.Known {
+			for _, t := range tags {
 				if strings.HasPrefix(t, k.Precondition) {
 					ok = true
 				}
@@ -497,6 +500,28 @@ func matchKnown(known []knownEntry, prop string, r *result) *knownEntry {
 		return k
 	}
 	return nil
+}
+
+var knownOnce sync.Once
+var knownAll []knownEntry
+
+// normalise moves the first violation of a run that is NOT a known finding to the front, so that
+// clause()/detail() speak about it. A run counts as "known findings only" if every one of its
+// violations matches an entry. It returns the entries the run hit and whether something unknown remains.
+func normalise(prop string, r *result) (hit []*knownEntry, unknown bool) {
+	knownOnce.Do(func() { knownAll = loadKnown() })
+	first := -1
+	for i, v := range r.Violations {
+		if k := matchKnownV(knownAll, prop, v, r.Known); k != nil {
+			hit = append(hit, k)
+		} else if first < 0 {
+			first = i
+		}
+	}
+	if first > 0 {
+		r.Violations[0], r.Violations[first] = r.Violations[first], r.Violations[0]
+	}
+	return hit, first >= 0
 }
 
 func seedFor(base uint64, i int) uint64 {
@@ -536,8 +561,6 @@ func cmdCheck(args []string) int {
 	if maxRuns == 0 {
 		maxRuns = 1 << 30
 	}
-	known := loadKnown()
-
 	// fan out
 	workers := numWorkers()
 	var mu sync.Mutex
@@ -586,8 +609,11 @@ func cmdCheck(args []string) int {
 	for _, r := range all {
 		switch r.Outcome {
 		case "violation":
-			if k := matchKnown(known, prop, r); k != nil {
+			hit, unknown := normalise(prop, r)
+			for _, k := range hit {
 				knownHit[k.What]++
+			}
+			if !unknown {
 				continue
 			}
 			viol = append(viol, r)
@@ -708,6 +734,11 @@ func replayCase(b *build, prop string, caseJSON []byte) (*result, error) {
 	rs, err := runWorker(b.bin, map[string]any{"mode": "replay", "property": prop, "case": c, "profile": b.profile}, 180*time.Second)
 	if err != nil {
 		return nil, err
+	}
+	if rs[0].Outcome == "violation" {
+		if _, unknown := normalise(prop, rs[0]); !unknown {
+			rs[0].Outcome = "known" // nothing but known findings: not a violation to report, minimise against or replay as one
+		}
 	}
 	return rs[0], nil
 }
@@ -894,6 +925,13 @@ func cmdReplay(args []string) int {
 	if r.Outcome == "violation" {
 		fmt.Printf("VIOLATION property=%s replay=%s\n  clause=%s: %s\n", file.Property, args[0], r.clause(), r.detail())
 		return 1
+	}
+	if r.Outcome == "known" {
+		for _, v := range r.Violations {
+			if k := matchKnownV(knownAll, file.Property, v, r.Known); k != nil {
+				fmt.Printf("KNOWN-FINDING: property=%s %s\n", file.Property, k.What)
+			}
+		}
 	}
 	if r.Outcome == "infra" {
 		fmt.Fprintln(os.Stderr, r.Infra)
